@@ -110,3 +110,32 @@ def containers_eq_reflexive(g, s):
     check('grid-equals-itself', lambda: g == g)
     check('agent-equals-itself', lambda: s.agent == s.agent)
     check('state-equals-itself', lambda: s == s)
+
+
+@contract(target='gym_gridverse.agent:Agent.__eq__', args={'self': 'Agent', 'other': 'Agent'}, props=['C03', 'C16'])
+def agent_eq(self, other):
+    ensures('total', lambda: returned())
+    ensures('pose-and-item', lambda: result() == (self.position == other.position and self.orientation is other.orientation
+                                                  and self.grid_object == other.grid_object))
+
+
+@lemma(args={'a': 'Agent', 'b': 'Agent'}, props=['C03', 'C16'])
+def agent_eq_hash(a, b):
+    check('equal-agents-hash-alike', lambda: implies(a == b, lambda: hash(a) == hash(b)))
+    check('reflexive', lambda: a == a)
+
+
+@contract(target=GR + 'Grid.__eq__', args={'self': 'Grid', 'other': 'Grid'}, props=['C03', 'C16'])
+def grid_eq(self, other):
+    ensures('total', lambda: returned())
+    ensures('shape-and-cellwise', lambda: result() == (self.shape == other.shape and forall_cells(
+        self, lambda c: implies(in_grid(other, c), lambda: self[c] == other[c]))))
+
+
+@lemma(args={'s': 'State', 'item': 'Obj'}, props=['C03'])
+def state_equality_sees_every_component(s, item):
+    """State equality compares grid (cellwise), pose and held item"""
+    from gym_gridverse.agent import Agent
+    from gym_gridverse.state import State
+    t = State(s.grid, Agent(s.agent.position, s.agent.orientation, item))
+    check('held-item-matters', lambda: (s == t) == (s.agent.grid_object == item))
